@@ -153,6 +153,17 @@ def programs():
                     "function main() -> void { Inventory v = new Inventory(); echo(v.total()); echo(v.label()); Stored<string> s = new Stored<string>(); echo(s.code + s.id); }\n"))
         out.append(("field-less generic layers over a plain root %s" % (perm,), "".join(bare[i] for i in perm) +
                     "function main() -> void { Inventory v = new Inventory(); echo(v.stamp()); Tagged<string> t = new Tagged<string>(); echo(t.stamp()); }\n"))
+    # a generic class whose static initialiser needs a specialisation of the same class (directly, through a function, through a
+    # second generic class), reached first through that specialisation and through another one
+    selfs = ["class Box<T> { public static Box<int> zero = new Box<int>(0); public T v; public constructor(T x) -> Box<T> { this.v = x; } public function get() -> T { return v; } }\n",
+             "function warmUp() -> int { Pool<int> p = new Pool<int>(4); return p.size; }\nclass Pool<T> { public static int warmed = warmUp(); public int size; public constructor(int n) -> Pool<T> { this.size = n; } }\n",
+             "class Ping<T> { public static Pong<T> other = new Pong<T>(); public constructor() -> Ping<T> = default; }\nclass Pong<T> { public static Ping<T> back = null; public int tag = 3; public constructor() -> Pong<T> = default; }\n"]
+    uses = ["Box<string> s = new Box<string>(\"a\"); echo(s.get()); Box<int> i = new Box<int>(2); echo(i.get());", "Box<int> i = new Box<int>(2); echo(i.get());",
+            "Pool<int> a = new Pool<int>(1); echo(a.size); Pool<string> b = new Pool<string>(2); echo(b.size);", "Pool<string> b = new Pool<string>(2); echo(b.size);",
+            "Ping<int> p = new Ping<int>(); echo(1); Pong<string> q = new Pong<string>(); echo(q.tag);"]
+    for ui, use in enumerate(uses):
+        out.append(("self-referential generic static %d" % ui, "".join(selfs) + "function main() -> void { %s echo(\"done\"); }\n" % use))
+        out.append(("self-referential generic static %d (main first)" % ui, "function main() -> void { %s echo(\"done\"); }\n" % use + "".join(reversed(selfs))))
     # deep recursion within the documented bound
     out.append(("recursion 200", "function down(int n) -> int { if (n <= 0) { return 0; } return 1 + down(n - 1); }\nfunction main() -> void { echo(down(200)); }\n"))
     # cx on one qubit
